@@ -1311,6 +1311,29 @@ class LoadFunc(_CallOrLoad, DataflowOp):
         return "LoadFunc"
 
 
+def _num_dataflow_ports(op: Op, direction: Direction) -> int | None:
+    """The number of value and static ports of a dataflow operation in the given
+    direction, which is the offset the order port is serialized with.
+
+    None if the operation has no order port or is incomplete.
+    """
+    try:
+        match op:
+            case Call():
+                sig, static_inputs = op.instantiation, 1
+            case LoadConst() | LoadFunc():
+                sig, static_inputs = op.outer_signature(), 1
+            case DataflowOp():
+                sig, static_inputs = op.outer_signature(), 0
+            case _:
+                return None
+    except IncompleteOp:
+        return None
+    if direction == Direction.INCOMING:
+        return len(sig.input) + static_inputs
+    return len(sig.output)
+
+
 @dataclass
 class Noop(AsExtOp, _PartialOp):
     """Identity operation that passes through its input."""
